@@ -40,6 +40,65 @@ def _tail_from_super_init(fi):
     raise AnalysisError(f"super().__init__ not found in {fi.qual}")
 
 
+def _flattened(repo, fi, cls_qual: str, other_qual: str, depth: int = 2):
+    """Copy of `fi` in which calls of private helpers of its own class (`self._h(...)`, `Class._h(...)`) are replaced by the
+    helper's body (the see-through of sv.canon, applied as a view): two copies then compare equal no matter on which side a
+    private helper was extracted or merged back."""
+    import dataclasses
+
+    from .. import canon
+
+    ci = repo.cls(cls_qual)
+    node = copy.deepcopy(fi.node)
+    inl = canon._Inliner({}, set())
+    for _ in range(depth):
+        changed = False
+        parents = canon._parent_map(node)
+        for call in [c for c in ast.walk(node) if isinstance(c, ast.Call)]:
+            f = call.func
+            if not (isinstance(f, ast.Attribute) and isinstance(f.value, ast.Name) and f.attr.startswith("_") and not f.attr.startswith("__")):
+                continue
+            if f.value.id not in ("self", "cls") and f.value.id not in SELF_NAMES:
+                continue
+            callee = repo.lookup_method(ci, f.attr)
+            if callee is None or callee.is_property or callee.qual == fi.qual:
+                continue
+            if repo.lookup_method(repo.cls(other_qual), f.attr) is not None:
+                continue  # both classes have a method of that name (possibly different overrides): compared as its own pair
+            h = canon.Helper(callee.qual, callee.node, ast.ClassDef(name="_", bases=[], keywords=[], body=[], decorator_list=[]), "")
+            if not h.inlinable:
+                continue
+            stmt = call
+            while stmt is not None and not isinstance(stmt, ast.stmt):
+                stmt = parents.get(id(stmt))
+            block = canon._find_block(node, stmt) if stmt is not None else None
+            if block is None:
+                continue
+            receiver = None if h.static else f.value
+            try:
+                new = inl._expand(h, stmt, call, receiver, node)
+            except Exception:
+                new = None
+            if new is None:
+                continue
+            i = next(k for k, s_ in enumerate(block) if s_ is stmt)
+            block[i : i + 1] = new
+            changed = True
+            break
+        if not changed:
+            break
+    # the merged-in statements get the same see-through of temporaries the front-end gives a hand-merged body
+    known = canon.load_known() or {}
+    entry = known.get("functions", {}).get(fi.qual)
+    kl = set(entry["locals"]) if entry else None
+    for _ in range(4):
+        k = canon.propagate_locals(node, kl) + canon.forward_temporaries(node, kl) + canon.loops_to_comprehensions(node, kl)
+        if not k:
+            break
+    ast.fix_missing_locations(node)
+    return dataclasses.replace(fi, node=node)
+
+
 def sibling_pairs(ctx, rep, rule: str, pairs: list[tuple[str, str, str]], tail_init: bool = False) -> None:
     """pairs: (class A, class B, method).  Each pair must be canonically equal."""
     repo = ctx.repo
@@ -47,8 +106,13 @@ def sibling_pairs(ctx, rep, rule: str, pairs: list[tuple[str, str, str]], tail_i
     for a, b, meth in pairs:
         fa = repo.lookup_method(repo.cls(a), meth)  # own or inherited: copies merged into a shared base agree trivially
         fb = repo.lookup_method(repo.cls(b), meth)
+        if fa is None and fb is None:
+            raise AnalysisError(f"{rule}: sibling method {meth} missing in both {a.split(':')[1]} and {b.split(':')[1]} (sibling table is out of date)")
         if fa is None or fb is None:
-            raise AnalysisError(f"{rule}: sibling method {meth} missing in {(a if fa is None else b).split(':')[1]} (sibling table is out of date)")
+            # merged into its caller on one side: the callers are compared with private helpers seen through, which covers it
+            n += 1
+            rep.ob(rule, f"sibling:{meth}:{a.split(':')[1]}~{b.split(':')[1]}", True, (fa or fb).loc(), f"{meth} exists in only one of the two classes (merged into its caller in the other): compared through the callers", nontrivial=False)
+            continue
         if fa is fb or fa.qual == fb.qual:
             n += 1
             rep.ob(rule, f"sibling:{meth}:{a.split(':')[1]}~{b.split(':')[1]}", True, fa.loc(), f"both classes use the one shared definition {fa.qual.split(':')[1]}", nontrivial=False)
@@ -58,6 +122,7 @@ def sibling_pairs(ctx, rep, rule: str, pairs: list[tuple[str, str, str]], tail_i
 
             fa = dataclasses.replace(fa, node=_tail_from_super_init(fa))
             fb = dataclasses.replace(fb, node=_tail_from_super_init(fb))
+        fa, fb = _flattened(repo, fa, a, b), _flattened(repo, fb, b, a)
         d = first_difference(canonical(fa, RENAMES, SELF_NAMES), canonical(fb, RENAMES, SELF_NAMES))
         an, bn = a.split(":")[1], b.split(":")[1]
         n += 1
